@@ -214,6 +214,10 @@ fn step_ihw(st: St, mode: u8) {
     let rdh = any_rdh();
     let pos = any_pos();
     c.reach(st, &rdh, pos);
+    // the remembered words of a link are ARBITRARY at this point of an arbitrary stream (an insane
+    // word is remembered too): the verdict on the new word must not depend on them
+    let prev_ihw: [u8; 10] = kani::any();
+    c.v.status_words.replace_ihw(Ihw::from_buf(&prev_ihw).unwrap());
     let w: [u8; 10] = kani::any();
     let wpos = c.next_word_pos();
     c.feed(&w);
@@ -258,7 +262,7 @@ macro_rules! H {
 }
 
 //@ harness: step_ihw0_all props=C01,C02,C07,C09 tier=quick class=functional covers=4 mem=10 timeout=900 est=60
-//@ bounds: state initial-IHW, check all its: arbitrary 80-bit word x current RDH (stop, page, orbit, BC, trigger, data format symbolic) x packet offset < 2^40
+//@ bounds: state initial-IHW, check all its: arbitrary 80-bit word x arbitrary remembered IHW x current RDH (stop, page, orbit, BC, trigger, data format symbolic) x packet offset < 2^40
 H!(step_ihw0_all, step_ihw(St::Ihw0, 2));
 //@ harness: step_ihw0_sanity props=C01,C02,C09 also=C07 tier=quick class=functional covers=3 mem=10 timeout=900 est=60
 //@ bounds: state initial-IHW, check sanity its: same inputs; the stop-bit running rule must NOT be reported
@@ -483,6 +487,12 @@ H!(step_choice_ihw_done, step_ihw_choice(St::AfterTdtDone, 2, 0));
 //@ harness: step_choice_ihw_done_e12 props=C02 also=C07 tier=quick class=functional covers=2 mem=10 timeout=900 est=60
 //@ bounds: same with RDH stop bit 1: [E12] at the word (plus [E30] iff insane)
 H!(step_choice_ihw_done_e12, step_ihw_choice(St::AfterTdtDone, 2, 1));
+//@ harness: step_choice_ihw_nodata_e12 props=C02 also=C07 tier=quick class=functional covers=2 mem=10 timeout=900 est=60
+//@ bounds: state after a no-data TDH, RDH stop bit 1: IHW => [E12] at the word (plus [E30] iff insane)
+H!(step_choice_ihw_nodata_e12, step_ihw_choice(St::AfterNoData, 2, 1));
+//@ harness: step_choice_ihw_nodata props=C01,C02 tier=quick class=functional covers=2 mem=10 timeout=900 est=60
+//@ bounds: state after a no-data TDH, RDH stop bit 0: IHW silent iff sane else [E30]
+H!(step_choice_ihw_nodata, step_ihw_choice(St::AfterNoData, 2, 0));
 
 fn step_ihw_choice(st: St, mode: u8, stop: u8) {
     let mut c = Ctx::new(cfg_of(mode));
@@ -1014,5 +1024,73 @@ fn template_hbf(rich: bool) {
     let o = c.obs();
     assert!(o.n_err == 0 && o.n_send == 0, "a conforming heartbeat frame was reported");
     kani::cover!(df == 0 && d1[0] == 0xFF, "data format 0, arbitrary hit byte");
+    core::mem::forget(c);
+}
+
+// =============================================================================================
+// CDW rule [E81]: a CDW whose user field differs from the previous CDW's must have index 0
+// =============================================================================================
+fn step_cdw(mode: u8) {
+    let mut c = Ctx::new(cfg_of(mode));
+    let rdh = conc_rdh(0, 0);
+    let pos = any_pos();
+    c.reach(St::Data, &rdh, pos);
+    let mut prev: [u8; 10] = kani::any();
+    prev[9] = ID_CDW;
+    c.v.status_words.replace_cdw(Cdw::from_buf(&prev).unwrap());
+    let mut w: [u8; 10] = kani::any();
+    w[9] = ID_CDW;
+    let wpos = c.next_word_pos();
+    c.feed(&w);
+    let o = c.obs();
+    assert!(truthful(&o, wpos, &w), "report with a wrong offset or wrong quoted bytes");
+    // layout: [47:0] user fields, [71:48] calibration word index
+    let user_differs = w[0] != prev[0] || w[1] != prev[1] || w[2] != prev[2] || w[3] != prev[3] || w[4] != prev[4] || w[5] != prev[5];
+    let index_nonzero = w[6] != 0 || w[7] != 0 || w[8] != 0;
+    let expect = mode == 2 && user_differs && index_nonzero;
+    assert!((o.n_err == 1) == expect && o.n_err <= 1, "CDW: reported iff the user field changed and the index is not 0 (check all only)");
+    if expect {
+        assert!(o.any_at(b"[E81]", wpos), "CDW index rule not reported as [E81]");
+    }
+    kani::cover!(expect || mode != 2, "index rule broken");
+    kani::cover!(user_differs && !index_nonzero, "new user field, index 0");
+    kani::cover!(!user_differs && index_nonzero, "same user field, running index");
+    core::mem::forget(c);
+}
+//@ harness: step_cdw_all props=C01,C02,C07 tier=quick class=functional covers=3 mem=10 timeout=900 est=40
+//@ bounds: state Data at payload start, check all its: arbitrary remembered CDW x arbitrary new CDW (72 non-id bits each): [E81] at the word iff the user field [47:0] changed and the index [71:48] is not 0
+H!(step_cdw_all, step_cdw(2));
+//@ harness: step_cdw_sanity props=C02 tier=quick class=functional covers=3 mem=10 timeout=900 est=40
+//@ bounds: same under check sanity its: never reported (stateful rule)
+H!(step_cdw_sanity, step_cdw(1));
+
+//@ harness: step_stave_open_frame props=C04,C01 tier=quick class=functional covers=1 mem=12 timeout=900 est=60
+//@ bounds: check all its-stave, arbitrary FEE ID in the RDH (any layer incl. the non-existent 7, any stave): IHW, TDH (continuation 0: opens a readout frame), two data words of lanes 5 and 6 with arbitrary data bytes: no panic and no report (the frame is not closed here: closing runs the HashMap-based ALPIDE checks, which are out of reach)
+#[kani::proof]
+#[kani::unwind(11)]
+#[kani::stub(alloc::fmt::format, crate::vsup::stub_format)]
+#[kani::stub(core::fmt::write, crate::vsup::stub_write)]
+#[kani::stub(flume::Sender::send, crate::vsup::stub_send)]
+#[kani::stub(crate::analyze::validators::its::util::report_error, crate::vsup::stub_report_error_fp)]
+fn step_stave_open_frame() {
+    let mut c = Ctx::new(&crate::vsup::VCFG_ALL_STAVE);
+    let mut rdh = conc_rdh(0, 0);
+    let fee: u16 = kani::any();
+    rdh[2] = fee as u8;
+    rdh[3] = (fee >> 8) as u8;
+    let pos = any_pos();
+    crate::vsup::reset();
+    c.set_rdh(&rdh, pos);
+    c.feed(&W_IHW);
+    c.feed(&tdh_w(&tdh_conf()));
+    let mut d1: [u8; 10] = kani::any();
+    d1[9] = 0x25;
+    let mut d2: [u8; 10] = kani::any();
+    d2[9] = 0x26;
+    c.feed(&d1);
+    c.feed(&d2);
+    let o = c.obs();
+    assert!(o.n_err == 0, "conforming words reported in stave mode");
+    kani::cover!((fee >> 12) & 7 == 7, "FEE ID with layer 7");
     core::mem::forget(c);
 }
